@@ -521,7 +521,7 @@ def helper_column_clause(model, rep):
             if var is not None:
                 for g in ast.walk(fn.node):
                     if isinstance(g, (ast.While, ast.If)) and getattr(g, "lineno", 0) < getattr(c, "lineno", 0):
-                        t = norm_src(g.test)
+                        t = norm_src(g.test) + " " + norm_src(Matcher(fn).expr(g.test, keep=(var,)))
                         if var in t and ".columns" in t and (" in " in t):
                             if isinstance(g, ast.While) or any(isinstance(y, ast.Raise) for st in g.body for y in ast.walk(st)):
                                 guard = True
